@@ -6,16 +6,18 @@ the classic operator / boundary / omitted-step mutations at the places the prope
   tools/mutants.py list
   tools/mutants.py run [id ...]      apply each mutant to /repo (sources only), run its checks (quick), undo
 
-Evidence files are restored afterwards.  Results go to seeded/mutants/results.json.  Never run concurrently with
-other checks: the mutant is applied to /repo's working tree."""
+Evidence files are restored afterwards.  Results go to seeded/mutants/results.json.  The mutant is applied to the
+working tree named by VERIF_REPO (default /repo): either run nothing else meanwhile, or work on scratch copies
+(rsync /verif and git clone /repo to a directory outside both, set VERIF_REPO, run the copy's tools/mutants.py)."""
 import json
 import shutil
 import subprocess
 import sys
 from pathlib import Path
 
-REPO = Path("/repo")
-VERIF = Path("/verif")
+import os
+REPO = Path(os.environ.get("VERIF_REPO", "/repo"))             # a scratch clone may be given (then /repo stays untouched)
+VERIF = Path(__file__).resolve().parents[1]
 SRC = REPO / "src" / "qtlogger"
 
 M = []
@@ -105,7 +107,7 @@ def run_checks(m):
         if ev.exists():
             shutil.copy(ev, bak)
         p = subprocess.run(["./check", c, "quick"], cwd=VERIF, capture_output=True, text=True,
-                           env=dict(__import__("os").environ, VERIF_REPLAYS="/tmp/replays_mut"))
+                           env=dict(os.environ, VERIF_REPLAYS="/tmp/replays_mut", VERIF_REPO=str(REPO)))
         out = p.stdout + p.stderr
         res[c] = {"rc": p.returncode, "violations": out.count("\nVIOLATION") + (1 if out.startswith("VIOLATION") else 0),
                   "notes": sum(1 for l in out.splitlines() if l.startswith("NOTE")),
